@@ -55,7 +55,11 @@ Print Assumptions C08_frame_rel_mono.
     storage; a data push is a view of the caller's script; OP_SPLIT pushes two views of its operand; OP_BIN2NUM
     may push its operand itself) and allocates a new array for every computed result. *)
 
-(** no opcode ever writes to an array that exists: the heap after a step is the heap before it plus new arrays *)
+(** no opcode ever writes to an array that exists: the heap after a step is the heap before it plus new arrays.
+    (Holds by construction of model/Heap.v: [rebuild] has no write operation, only [alloc], which appends -- this is the
+    modelling ASSUMPTION "every Go handler allocates its result", not a consequence of a model of handlers that could
+    write in place; that the Go handlers behave so is carried by the address-comparison correspondence, corr/C08.v.
+    What the theorems below add is that the assumed sharing pattern is CONSISTENT with the value semantics.) *)
 Theorem C08_no_opcode_writes_to_existing_storage : forall c sc off p s d' hs hs',
   rebuild c sc off p s d' hs = Some hs' -> extends (h_heap hs) (h_heap hs').
 Proof. exact rebuild_extends. Qed.
@@ -131,6 +135,90 @@ Theorem C08_sharing_and_value_machines_agree : forall so i,
                  nth 0 h [] = ei_unlock i /\ nth 1 h [] = ei_lock i.
 Proof. exact sharing_machine_total_refinement. Qed.
 Print Assumptions C08_sharing_and_value_machines_agree.
+
+(** * Audit B additions (proofs/AuditB_C08.v, proofs/AuditB_C08Heap.v) *)
+From GoBT Require Import model.Tx model.SigHash model.CheckSig proofs.CheckSigProofs proofs.SigOpProofs
+  proofs.AuditB_C08 proofs.AuditB_C08Heap.
+
+(** ** the sharing machine WITH signature opcodes.  [sigops_framed]: a signature operation leaves a suffix of the data
+    stack, pushes at most one (new) result, leaves the alt stack alone and never returns early.  The operations of
+    model/CheckSig.v satisfy it for every oracle, transaction and input index (no well-formedness needed) ... *)
+Theorem C08_signature_opcodes_framed : forall orc t i, sigops_framed (mk_sigops orc t i).
+Proof. exact mk_sigops_framed. Qed.
+Print Assumptions C08_signature_opcodes_framed.
+
+(** ... under it the sharing machine is never stuck on ANY opcode ... *)
+Theorem C08_sharing_machine_never_stuck_with_signatures : forall so c sc off p idx s hs,
+  sigops_framed so ->
+  reads hs (ds s) (als s) = true -> in_bounds (h_heap hs) sc = true ->
+  ((p_val p <=? OP_PUSHDATA4)%N = true -> (0 <? p_val p)%N = true ->
+   rd (h_heap hs) (sub sc (off + data_off p) (length (p_data p))) = p_data p /\
+   in_bounds (h_heap hs) (sub sc (off + data_off p) (length (p_data p))) = true) ->
+  (1 <= length (h_heap hs))%nat ->
+  h_step so c sc off p idx s hs <> HStuck.
+Proof. exact h_step_not_stuck_framed. Qed.
+Print Assumptions C08_sharing_machine_never_stuck_with_signatures.
+
+(** ... and so, for EVERY input -- any scripts, any flags, with a transaction context, P2SH included, pay-to-public-key-hash
+    spends among them -- the sharing machine reaches the end, its verdict and snapshots are the value machine's, and the
+    caller's two script buffers hold at the end what they held at the start.  This removes the hypotheses of
+    [C08_sharing_and_value_machines_agree(_without_tx)] *)
+Theorem C08_sharing_and_value_machines_agree_framed : forall so i, sigops_framed so ->
+  exists v sn h, h_engine_execute so i = HRes v sn h /\
+                 engine_execute so i = (v, map (abs_snap h) sn) /\
+                 nth 0 h [] = ei_unlock i /\ nth 1 h [] = ei_lock i.
+Proof. exact sharing_machine_total_refinement_framed. Qed.
+Print Assumptions C08_sharing_and_value_machines_agree_framed.
+Theorem C08_sharing_and_value_machines_agree_with_signatures : forall orc t n i,
+  exists v sn h, h_engine_execute (mk_sigops orc t n) i = HRes v sn h /\
+                 engine_execute (mk_sigops orc t n) i = (v, map (abs_snap h) sn) /\
+                 nth 0 h [] = ei_unlock i /\ nth 1 h [] = ei_lock i.
+Proof. exact sharing_machine_total_refinement_signatures. Qed.
+Print Assumptions C08_sharing_and_value_machines_agree_with_signatures.
+
+(** <sig> <key> DUP | SWAP DROP CHECKSIG with a transaction context: the machine is not stuck, the key and its duplicate
+    are views of the unlocking script, the result of OP_CHECKSIG is a new array *)
+Example C08_sharing_example_checksig :
+  match h_engine_execute (mk_sigops any_oracle ex_tx 1)
+          (mkExecInput [x02; x30; x01; x01; x02; x76] [x7c; x75; xac] 0 true true 0 1 0) with
+  | HRes v sn h =>
+      v = VOk /\ nth_error sn 2 = Some ([mkSl 0 1 2; mkSl 0 4 1; mkSl 0 4 1], []) /\
+      last sn ([], []) = ([mkSl 2 0 1], []) /\ nth 0 h [] = [x02; x30; x01; x01; x02; x76]
+  | HResStuck => False
+  end.
+Proof. vm_compute. repeat split; reflexivity. Qed.
+
+(** ** the transaction.  What thread.apply does to the transaction the caller passed ([record_prevout], thread.go: the
+    previous output's script and value are stored on the checked input): the serialisation (hence the txid) is
+    unchanged, every other input is untouched, and the checked input changes in those two fields only.  Signature
+    checks work on [clone t] (model/CheckSig.sighash_for), so nothing else reaches the caller's transaction.
+    (Statements about the recording function; the interpreter model does not carry the transaction through a run.) *)
+Theorem C08_record_prevout_keeps_serialisation : forall t i lock sats,
+  tx_bytes false (record_prevout t i lock sats) = tx_bytes false t.
+Proof. exact record_prevout_keeps_serialisation. Qed.
+Print Assumptions C08_record_prevout_keeps_serialisation.
+Theorem C08_record_prevout_touches_one_input : forall t i lock sats j x,
+  nth_error (tx_ins t) (N.to_nat j) = Some x -> j <> i ->
+  nth_error (tx_ins (record_prevout t i lock sats)) (N.to_nat j) = Some x.
+Proof. exact record_prevout_touches_one_input. Qed.
+Print Assumptions C08_record_prevout_touches_one_input.
+Theorem C08_record_prevout_on_the_input : forall t i lock sats x,
+  nth_error (tx_ins t) (N.to_nat i) = Some x ->
+  nth_error (tx_ins (record_prevout t i lock sats)) (N.to_nat i) =
+  Some (mkInput (in_txid x) (in_vout x) (in_unlock x) (in_seq x) sats (Some lock)).
+Proof. exact record_prevout_on_the_input. Qed.
+Print Assumptions C08_record_prevout_on_the_input.
+(** the engine's transaction used by C04 / C20 ([engine_tx]) is that recording *)
+Theorem C08_engine_tx_is_record_prevout : forall t i x lock sats,
+  nth_error (tx_ins t) (N.to_nat i) = Some x ->
+  engine_tx t i (in_unlock x) lock sats = record_prevout t i lock sats.
+Proof. exact engine_tx_is_record_prevout. Qed.
+Print Assumptions C08_engine_tx_is_record_prevout.
+
+(** ** [frame_rel k d d'] of the frame theorems above says exactly: what lay under the top k items of d is a suffix of d' *)
+Theorem C08_frame_rel_is_suffix : forall k d d', frame_rel k d d' <-> exists new, d' = new ++ skipn k d.
+Proof. exact frame_rel_iff. Qed.
+Print Assumptions C08_frame_rel_is_suffix.
 
 (** non-vacuity of the sharing statements: DUP / SPLIT / CAT / alt-stack traffic on a value pushed from the unlocking
     script runs to the end ([HRes], not stuck), the duplicate and the two halves of the split are views of the
